@@ -1243,6 +1243,34 @@ def maa_overlap_nets(seed: int, tier: str):
         yield from emit(f"maa_overlap{seed}_{i}", maa_overlap_net(u, [rng.choice(sides) for _ in range(rng.choice([2, 2, 3]))]))
 
 
+# ---- (11) multi-path diagrams in which a stable motif of one module splits into two steps once another module is fixed ------------------------------
+# Under one state of the controller P the module's joint motif (e.g. R = U = T = 0) is reached in two steps (first T, then R, U): the node X below the
+# joint motif m is a grandchild, not a child, of the controller node n although it lies inside n.
+TWO_STEP_MODULES = {
+    "ru_t": "R, R & U | T; U, R; T, R & (T | {c})",  # first: the instance that revealed the shape
+    "r_t": "R, R | T; T, R & (T | {c})",
+    "ru_t_dual": "R, (R | U) & T; U, R; T, R | (T & {c})",
+    "r_t_dual": "R, R & T; T, R | (T & {c})",
+    "ru_t_chain": "R, R & U; U, R | T; T, U & (T | {c})",
+    "r_gated": "R, T | (R & {c}); T, R & T",
+    "r_and": "R, R & (T | {c}); T, T & R",
+    "r_or": "R, R | (T & {c}); T, T | R",
+}
+TWO_STEP_CONTROLLERS = {"switch": "P, Q; Q, P", "toggle": "P, !Q; Q, !P", "asym": "P, P | Q; Q, P & Q"}
+
+
+def two_step_nets(seed: int, tier: str):
+    """(name, bnet): controller x two-step module x polarity of the condition, then seeded latch-DAG networks with 3-5 variables (most of which have nested
+    shortcut edges).  Callers keep those for which a brute-force filter confirms the shape and add a motif-avoidant gadget."""
+    for m, mt in TWO_STEP_MODULES.items():
+        for c, ct in TWO_STEP_CONTROLLERS.items():
+            for lit in ("P", "!P"):
+                yield (f"two_step_{m}_{c}_{'pos' if lit == 'P' else 'neg'}", norm(ct + "; " + mt.format(c=lit)))
+    rng = random.Random(seed * 89 + 3)
+    for i in range(400 if tier == "quick" else 4000):
+        yield (f"two_step_ldag{seed}_{i}", latch_dag_net(seed * 8_009 + i, n=rng.choice([3, 4, 4, 5])))
+
+
 def interleave(*gens):
     """Round-robin over generators (each argument is (generator, k): take k items per round) until all are exhausted."""
     its = [(iter(g), k) for g, k in gens]
